@@ -31,6 +31,7 @@ type Result struct {
 }
 
 var pkgLineRe = regexp.MustCompile(`(?m)^(?:\./)?(p\d+)/[^:\s]+:\d+`)
+var initPanicRe = regexp.MustCompile(`batch/(p\d+)\.init`)
 var pkgHdrRe = regexp.MustCompile(`(?m)^# [^\s]*/(p\d+)\b`)
 
 // Run builds and runs the programs. ws is a fresh workspace name inside env.
@@ -94,6 +95,29 @@ func Run(env *scratch.Env, ws string, progs []Prog, cpuSecPerBatch int) *Result 
 		return res
 	}
 	run := scratch.Run(scratch.Cmd{Path: bin, Dir: dir, CPUSec: cpuSecPerBatch, WallSec: 900, MaxOut: 64 << 20})
+	// a panic while initialising one package's top-level variables kills the driver
+	// before any program runs: attribute it, drop that package and rebuild
+	for round := 0; round < 20 && run.Exit != 0 && !strings.Contains(run.Stdout, "===BEGIN "); round++ {
+		m := initPanicRe.FindStringSubmatch(run.Stderr)
+		if m == nil || !live[m[1]] {
+			break
+		}
+		res.Died[m[1]] = "panic while initialising top-level variables: " + tailS(firstLines(run.Stderr, 3), 400)
+		delete(live, m[1])
+		names = sortedKeys(live)
+		if len(names) == 0 {
+			return res
+		}
+		writeDriver(dir, names)
+		cmd := exec.Command("go", "build", "-trimpath", "-tags", "verif", "-o", bin, ".")
+		cmd.Dir = dir
+		cmd.Env = scratch.GoEnv()
+		if out, err := cmd.CombinedOutput(); err != nil {
+			res.Inconcl = "rebuild after init panic failed: " + tailS(string(out), 800)
+			return res
+		}
+		run = scratch.Run(scratch.Cmd{Path: bin, Dir: dir, CPUSec: cpuSecPerBatch, WallSec: 900, MaxOut: 64 << 20})
+	}
 	complete := parseOutput(run.Stdout, res)
 	if run.WallOut {
 		res.Inconcl = "driver wall-clock watchdog"
@@ -195,4 +219,12 @@ func tailS(s string, n int) string {
 		return s
 	}
 	return "…" + s[len(s)-n:]
+}
+
+func firstLines(s string, n int) string {
+	ls := strings.SplitN(s, "\n", n+1)
+	if len(ls) > n {
+		ls = ls[:n]
+	}
+	return strings.Join(ls, " | ")
 }
